@@ -1,0 +1,55 @@
+//go:build verif
+
+package expire
+
+// Contracts for /verif (contract-based deductive verification of the real
+// code). Comment-only: no code; visible only with the build tag "verif".
+//
+// Remaining idle allowance, from the statement (C09): the stamp is the session's
+// last_action; without a stamp the full allowance remains.
+//@ spec stamp(r) := time_parse("2006-01-02T15:04:05Z07:00", sess(r, "last_action"))
+//@ spec ttl(r, allow, now) := ite(!sess_has(r, "last_action"), allow, max(0, stamp(r) + allow - now))
+//@
+//@ func timeToExpiry
+//@   property C09
+//@   requires expireAfter >= 0
+//@   ensures ttl_is_spec: ite(sess_has(r, "last_action"), emits Now() -> ?n :: result == ttl(r, expireAfter, n), result == expireAfter)
+//@   ensures panics_only_on_bad_stamp: panics ==> (sess_has(r, "last_action") && !time_parse_ok("2006-01-02T15:04:05Z07:00", sess(r, "last_action")))
+//@
+//@ func refreshExpiry
+//@   property C09
+//@   ensures stamps_now: emits Sess.Put("last_action", ?v) :: before Now() -> ?n :: v == time_format(n, "2006-01-02T15:04:05Z07:00")
+//@
+//@ func Setup
+//@   property C09
+//@   ensures login_stamps: emits Events.Register("After", EventAuth, ?h) :: fname(h) == "Setup#Setup$1"
+//@
+//@ func Setup#1
+//@   property C09
+//@   ensures stamps_now: result.0 == false && result.1 == nil && emits Sess.Put("last_action", ?v) :: before Now() -> ?n :: v == time_format(n, "2006-01-02T15:04:05Z07:00")
+//@
+//@ func (expireMiddleware).ServeHTTP
+//@   property C09
+//@   requires m.expireAfter >= 0
+//@   invariant loop#1 whitelist_subset: forall k string :: maphas(whitelist, k) ==> (exists j int :: 0 <= j && j < len(m.sessionWhitelist) && elem(m.sessionWhitelist, j) == k)
+//@   -- an expired session: delete all but the whitelist plus the identity keys, and hide
+//@   -- the user from the wrapped handler
+//@   ensures expired_branch: (!panics && sess_has(r, "uid") &&
+//@         ite(sess_has(r, "last_action"), emits Now() -> ?n :: !(before Now()) && ttl(r, m.expireAfter, n) == 0, m.expireAfter == 0)) ==>
+//@       ((emits Sess.DelAll(?k) :: k == join(m.sessionWhitelist, ",") && after Sess.Del("uid") && after Sess.Del("last_action")) &&
+//@        !emits Sess.Put(_, _) &&
+//@        (emits Next.ServeHTTP(_, _, _, ?cu, ?cp, _) :: cu == nil && cp == nil))
+//@   -- the session view handed down on the expired branch only knows whitelisted keys
+//@   ensures hidden_view: each Next.ServeHTTP(_, _, _, _, _, ?cs) => (cs != ctxsession(r)) ==>
+//@       (forall k string :: maphas(cs.whitelist, k) ==> (exists j int :: 0 <= j && j < len(m.sessionWhitelist) && elem(m.sessionWhitelist, j) == k))
+//@   ensures live_branch: (!panics && sess_has(r, "uid") &&
+//@         ite(sess_has(r, "last_action"), emits Now() -> ?n :: !(before Now()) && ttl(r, m.expireAfter, n) > 0, m.expireAfter > 0)) ==>
+//@       ((emits Sess.Put("last_action", _)) && !emits Sess.Del(_) && !emits Sess.DelAll(_) &&
+//@        (emits Next.ServeHTTP(_, _, ?r2) :: r2 == r))
+//@   ensures anonymous_untouched: !sess_has(r, "uid") ==> (!emits Sess.Put(_, _) && !emits Sess.Del(_) && !emits Sess.DelAll(_) && (emits Next.ServeHTTP(_, _, ?r2) :: r2 == r))
+//@   ensures next_always_runs: !panics ==> emits Next.ServeHTTP(_, _, _)
+//@
+//@ func (stateHider).Get
+//@   property C09
+//@   -- a hidden session only ever reveals whitelisted keys
+//@   ensures hides: result.1 ==> maphas(k.whitelist, s)
